@@ -19,5 +19,7 @@ REGISTRY = {
     "C08": _lazy("parser_checks", "run_c08"),
     "C20": _lazy("parser_checks", "run_c20"),
     "C09": _lazy("verifier_checks", "run_c09"),
+    "C10": _lazy("gating_checks", "run_c10"),
+    "C12": _lazy("reflection_checks", "run_c12"),
     "C15": _lazy("order_checks", "run_c15"),
 }
